@@ -40,7 +40,7 @@ func init() {
 		func(c c11Case) (string, []Violation, int) {
 			s := c11Sites[c.Site]
 			confReset()
-			log.VerifClearFrameCache()
+			log.VerifReset() // cold caches and pools: the history below re-creates what a case needs
 			// history: the same process has logged before with caller lookup ON (from another call site), so
 			// that recycled events / cached frames from that time exist whatever the shard order of cases
 			if err, pn := safeRefresh(map[string]string{"appender.r0.type": "Rec", "logger.root.type": "Logger", "logger.root.appenderRef.ref": "r0", "logger.root.level": "TRACE", "enableCaller": "true"}); err == nil && pn == nil {
@@ -112,7 +112,7 @@ func init() {
 		func(c popCase) (string, []Violation, int) {
 			sites := allSites()[:c.Sites]
 			confReset()
-			log.VerifClearFrameCache()
+			log.VerifReset() // cold caches and pools: the history below re-creates what a case needs
 			key := fmt.Sprintf("sites=%d fast=%v", c.Sites, c.Fast)
 			conf := map[string]string{"appender.r0.type": "Rec", "logger.root.type": "Logger", "logger.root.appenderRef.ref": "r0", "logger.root.level": "TRACE",
 				"enableCaller": "true", "fastCaller": fmt.Sprint(c.Fast)}
